@@ -373,6 +373,15 @@ signal_closed_caption		(uint8_t *		raw,
 			double d;
 
 			d = t - t3;
+			if (d < 0.0 || d * bit_rate >= 31.0) {
+				/* Blanking level before the CRI or after
+				   the last data bit. The conversion to
+				   unsigned int and the shifts below are
+				   undefined for these values. */
+				raw[i] = SATURATE (blank_level, 0, 255);
+				t += sample_period;
+				continue;
+			}
 			bit = d * bit_rate;
 			seq = (data >> bit) & 3;
 
